@@ -200,3 +200,173 @@ pub proof fn lemma_concat_len(s: Seq<Chunk>)
         assert(wf_chunk(s[s.len() - 1]));
     }
 }
+
+// ---- the position reported for a missing / duplicated id is a property of the multiset as well
+pub proof fn lemma_count_one(s: Seq<Chunk>, i: int)
+    requires 0 <= i < s.len(), forall|k: int| 0 <= k < s.len() && k != i ==> s[k] != s[i]
+    ensures s.to_multiset().count(s[i]) == 1
+    decreases s.len()
+{
+    let last = s.len() - 1;
+    let t = s.drop_last();
+    assert(s =~= t.push(s[last]));
+    t.to_multiset_ensures();
+    assert(t.push(s[last]).to_multiset() =~= t.to_multiset().insert(s[last]));
+    if i == last {
+        if t.to_multiset().count(s[last]) > 0 {
+            assert(t.to_multiset().contains(s[last]));
+            assert(t.contains(s[last]));
+            let k = choose|k: int| 0 <= k < t.len() && t[k] == s[last];
+            assert(s[k] == s[i]);
+            assert(false);
+        }
+    } else {
+        assert forall|k: int| 0 <= k < t.len() && k != i implies t[k] != t[i] by { assert(t[k] == s[k] && t[i] == s[i]); }
+        lemma_count_one(t, i);
+        assert(t[i] == s[i]);
+        assert(s[last] != s[i]);
+    }
+}
+proof fn lemma_position_le(a: Seq<Chunk>, b: Seq<Chunk>, p: int, q: int)
+    requires a.to_multiset() == b.to_multiset(), sorted_ids(a), sorted_ids(b), first_not_dense(a, p), first_not_dense(b, q)
+    ensures p >= q
+{
+    a.to_multiset_ensures();
+    b.to_multiset_ensures();
+    if p < q {
+        // b[j].id == j for all j <= p
+        assert(b[p].chunk_id as int == p);
+        if a[p].chunk_id as int > p {
+            // no element of a has id p, but b[p] has
+            assert(b.to_multiset().contains(b[p]));
+            assert(a.contains(b[p]));
+            let k = choose|k: int| 0 <= k < a.len() && a[k] == b[p];
+            if k < p { assert(a[k].chunk_id as int == k); } else { assert(a[p].chunk_id <= a[k].chunk_id); }
+            assert(false);
+        } else {
+            // a[p].id < p: the id d = a[p].id occurs at two positions of a (d and p), but only at position d of b
+            let d = a[p].chunk_id as int;
+            assert(d < p);
+            assert(a[d].chunk_id as int == d);
+            let (x, y) = (a[d], a[p]);
+            assert(a.to_multiset().contains(x) && a.to_multiset().contains(y));
+            assert(b.contains(x) && b.contains(y));
+            let k1 = choose|k: int| 0 <= k < b.len() && b[k] == x;
+            let k2 = choose|k: int| 0 <= k < b.len() && b[k] == y;
+            assert forall|k: int| 0 <= k < b.len() && (#[trigger] b[k]).chunk_id as int == d implies k == d by {
+                if k <= p { assert(b[k].chunk_id as int == k); } else { assert(b[p].chunk_id <= b[k].chunk_id); }
+            }
+            assert(k1 == d && k2 == d);
+            assert(x == y);
+            lemma_count_two(a, d, p);
+            assert forall|k: int| 0 <= k < b.len() && k != d implies b[k] != b[d] by {
+                if b[k] == b[d] { assert(b[k].chunk_id as int == d); }
+            }
+            lemma_count_one(b, d);
+            assert(false);
+        }
+    }
+}
+// two id-sorted arrangements of the same multiset report the same first missing-or-duplicated position
+pub proof fn lemma_position_unique(a: Seq<Chunk>, b: Seq<Chunk>, p: int, q: int)
+    requires a.to_multiset() == b.to_multiset(), sorted_ids(a), sorted_ids(b), first_not_dense(a, p), first_not_dense(b, q)
+    ensures p == q
+{
+    lemma_position_le(a, b, p, q);
+    lemma_position_le(b, a, q, p);
+}
+
+// ---- C04, first sentence: the result is the same for every ordering of the chunk set.
+// `reassembly_post` is the conjunction of the postconditions proved for the real PwbV2Packet::try_from(Vec<Chunk>) in this unit.
+pub open spec fn reassembly_post(chunks: Seq<Chunk>, r: Result<PwbV2Packet, TryPwbPacketFromChunksError>) -> bool {
+    &&& chunks.len() == 0 ==> (r matches Err(TryPwbPacketFromChunksError::MissingChunk { position }) && position == 0)
+    &&& (r matches Err(TryPwbPacketFromChunksError::DeviceIdMismatch { .. })) == (chunks.len() > 0 && ms_mixed_device(chunks.to_multiset()))
+    &&& (r matches Err(TryPwbPacketFromChunksError::ChannelIdMismatch { .. })) == (chunks.len() > 0 && !ms_mixed_device(chunks.to_multiset()) && ms_mixed_chip(chunks.to_multiset()))
+    &&& chunks.len() > 0 && !ms_mixed_device(chunks.to_multiset()) && !ms_mixed_chip(chunks.to_multiset()) ==>
+            exists|s: Seq<Chunk>| #[trigger] sorted_ids(s) && s.to_multiset() == chunks.to_multiset() && verdict(s, r)
+}
+// "same result": equal error variant with equal position / lengths, or success with packets that are both the decode of one payload
+pub open spec fn same_result(r1: Result<PwbV2Packet, TryPwbPacketFromChunksError>, r2: Result<PwbV2Packet, TryPwbPacketFromChunksError>) -> bool {
+    match (r1, r2) {
+        (Ok(p1), Ok(p2)) => exists|bytes: Seq<u8>| #[trigger] pwb_ok(bytes) && pwb_fields(p1, bytes) && pwb_fields(p2, bytes),
+        (Err(TryPwbPacketFromChunksError::DeviceIdMismatch { .. }), Err(TryPwbPacketFromChunksError::DeviceIdMismatch { .. })) => true,
+        (Err(TryPwbPacketFromChunksError::ChannelIdMismatch { .. }), Err(TryPwbPacketFromChunksError::ChannelIdMismatch { .. })) => true,
+        (Err(TryPwbPacketFromChunksError::MissingChunk { position: a }), Err(TryPwbPacketFromChunksError::MissingChunk { position: b })) => a == b,
+        (Err(TryPwbPacketFromChunksError::MissingEndOfMessageChunk), Err(TryPwbPacketFromChunksError::MissingEndOfMessageChunk)) => true,
+        (Err(TryPwbPacketFromChunksError::MisplacedEndOfMessageChunk { position: a }), Err(TryPwbPacketFromChunksError::MisplacedEndOfMessageChunk { position: b })) => a == b,
+        (Err(TryPwbPacketFromChunksError::PayloadLengthMismatch { found: f1, expected: e1 }), Err(TryPwbPacketFromChunksError::PayloadLengthMismatch { found: f2, expected: e2 })) => f1 == f2 && e1 == e2,
+        (Err(TryPwbPacketFromChunksError::BadPayload(_)), Err(TryPwbPacketFromChunksError::BadPayload(_))) => true,
+        _ => false,
+    }
+}
+pub proof fn lemma_order_independent(a: Seq<Chunk>, b: Seq<Chunk>, ra: Result<PwbV2Packet, TryPwbPacketFromChunksError>, rb: Result<PwbV2Packet, TryPwbPacketFromChunksError>)
+    requires a.to_multiset() == b.to_multiset(), reassembly_post(a, ra), reassembly_post(b, rb)
+    ensures same_result(ra, rb)
+{
+    a.to_multiset_ensures();
+    b.to_multiset_ensures();
+    assert(a.len() == b.len());
+    let m = a.to_multiset();
+    if a.len() == 0 {
+    } else if ms_mixed_device(m) {
+    } else if ms_mixed_chip(m) {
+    } else {
+        let sa = choose|s: Seq<Chunk>| #[trigger] sorted_ids(s) && s.to_multiset() == m && verdict(s, ra);
+        let sb = choose|s: Seq<Chunk>| #[trigger] sorted_ids(s) && s.to_multiset() == m && verdict(s, rb);
+        sa.to_multiset_ensures();
+        sb.to_multiset_ensures();
+        assert(sa.len() == sb.len() && sa.len() > 0);
+        if dense(sa) {
+            lemma_dense_is_multiset_property(sa, sb);
+            lemma_dense_unique(sa, sb);
+            assert(sa == sb);
+            // the same sequence: every later rung of the ladder is a function of it
+            match (ra, rb) {
+                (Err(TryPwbPacketFromChunksError::MisplacedEndOfMessageChunk { position: p1 }), Err(TryPwbPacketFromChunksError::MisplacedEndOfMessageChunk { position: p2 })) => {
+                    if (p1 as int) < (p2 as int) { assert(!eom(sa[p1 as int])); } else if (p2 as int) < (p1 as int) { assert(!eom(sa[p2 as int])); }
+                }
+                (Err(TryPwbPacketFromChunksError::PayloadLengthMismatch { found: f1, expected: e1 }), Err(TryPwbPacketFromChunksError::PayloadLengthMismatch { found: f2, expected: e2 })) => {
+                    let p1 = choose|p: int| ladder(sa, Ladder::Len(p)) && f1 == sa[p].payload@.len() && e1 == sa[0].payload@.len();
+                    let p2 = choose|p: int| ladder(sa, Ladder::Len(p)) && f2 == sa[p].payload@.len() && e2 == sa[0].payload@.len();
+                    if p1 < p2 { assert(sa[p1].payload@.len() == sa[0].payload@.len()); } else if p2 < p1 { assert(sa[p2].payload@.len() == sa[0].payload@.len()); }
+                }
+                (Ok(p1), Ok(p2)) => {
+                    assert(pwb_ok(concat_payloads(sa)) && pwb_fields(p1, concat_payloads(sa)) && pwb_fields(p2, concat_payloads(sa)));
+                }
+                _ => {}
+            }
+        } else {
+            if dense(sb) { lemma_dense_is_multiset_property(sb, sa); }
+            // both arrangements are not dense: both results are MissingChunk at the first bad position
+            let pa = choose|p: int| first_not_dense_at(sa, p);
+            lemma_first_not_dense_exists(sa);
+            lemma_first_not_dense_exists(sb);
+            match (ra, rb) {
+                (Err(TryPwbPacketFromChunksError::MissingChunk { position: p1 }), Err(TryPwbPacketFromChunksError::MissingChunk { position: p2 })) => {
+                    lemma_position_unique(sa, sb, p1 as int, p2 as int);
+                }
+                _ => {}
+            }
+        }
+    }
+}
+pub open spec fn first_not_dense_at(s: Seq<Chunk>, p: int) -> bool { first_not_dense(s, p) }
+// a sequence that is not dense has a first offending position, so every rung below `Missing` is excluded for it
+pub proof fn lemma_first_not_dense_exists(s: Seq<Chunk>)
+    requires !dense(s)
+    ensures exists|p: int| first_not_dense(s, p)
+{
+    lemma_first_not_dense_upto(s, s.len() as int);
+}
+proof fn lemma_first_not_dense_upto(s: Seq<Chunk>, n: int)
+    requires 0 <= n <= s.len(), exists|i: int| 0 <= i < n && (#[trigger] s[i]).chunk_id as int != i
+    ensures exists|p: int| first_not_dense(s, p)
+    decreases n
+{
+    if exists|i: int| 0 <= i < n - 1 && (#[trigger] s[i]).chunk_id as int != i {
+        lemma_first_not_dense_upto(s, n - 1);
+    } else {
+        assert(s[n - 1].chunk_id as int != n - 1);
+        assert(first_not_dense(s, n - 1));
+    }
+}
